@@ -25,7 +25,8 @@ ASSUMPTIONS = [
     'is decoded with the template encoding before comparison',
 ]
 
-ENCODINGS = ['utf-8', 'latin-1', 'cp1252', 'utf-16']
+ENCODINGS = ['utf-8', 'latin-1', 'cp1252', 'utf-16', 'cp500', 'utf-7',
+             'utf-16-le', 'utf-32', 'shift_jis', 'cp037']
 
 # name -> (source with {L} {R} neighbours, number of pieces >= 2 ?)
 FORMS = {
@@ -55,6 +56,16 @@ FORMS = {
     'try-else-single': '<dtml-try><dtml-var x><dtml-except>E<dtml-else>'
                        '</dtml-try>',
     'try-finally': '{L}<dtml-try><dtml-var x><dtml-finally>{R}</dtml-try>',
+    # both parts of the try are a single bytes value each
+    'try-else-both': '<dtml-try><dtml-var x><dtml-except>E<dtml-else>'
+                     '<dtml-var x></dtml-try>',
+    'try-finally-both': '<dtml-try><dtml-var x><dtml-finally><dtml-var x>'
+                        '</dtml-try>',
+    'try-else-both-hq': '{L}<dtml-try>&dtml-x;<dtml-except>E<dtml-else>'
+                        '<dtml-var x></dtml-try>',
+    'if-then-if': '<dtml-if t><dtml-var x></dtml-if><dtml-if t>'
+                  '<dtml-var x></dtml-if>',
+    'in-in': '<dtml-in seq><dtml-in seq><dtml-var x></dtml-in></dtml-in>',
     'try-except': '<dtml-try><dtml-var nope><dtml-except><dtml-var x>'
                   '</dtml-try>{R}',
     'raise-body': '<dtml-try><dtml-raise KeyError><dtml-var x></dtml-raise>'
@@ -113,7 +124,8 @@ FORMS = {
     'epfs': '{L}%(x)s{R}',
     'epfs-in': '%(in seq)[%(x)s{R}%(in)]',
 }
-MULTI = ('after-sub-other-enc', 'after-sub-other-enc-hq',
+MULTI = ('try-else-both', 'try-finally-both', 'try-else-both-hq',
+         'if-then-if', 'in-in', 'after-sub-other-enc', 'after-sub-other-enc-hq',
          'after-sub-other-enc-fmt', 'after-sub-other-enc-in',
          'in-batch-inner', 'in-mapping-inner', 'in-sort-inner',
          'two', 'in-body', 'in-items', 'in-batch', 'in-items-ent', 'epfs-in',
@@ -157,6 +169,8 @@ def check(case):
     try:
         b = s.encode(enc)
         (L + R).encode(enc)
+        if b.decode(enc) != s:
+            return 'skip'      # the codec does not round-trip this text
     except UnicodeError:
         return 'skip'
     try:
